@@ -54,6 +54,8 @@ func sortQueuesByPriority(queues []*Queue) {
 }
 
 func sortQueuesByPriorityAndFairness(queues []*Queue, fairMaxResources []*resources.Resource) {
+	// the sort moves the queues but not the parallel slice: look the fair max up by queue, not by index
+	fairMax := fairMaxByQueue(queues, fairMaxResources)
 	sort.SliceStable(queues, func(i, j int) bool {
 		l := queues[i]
 		r := queues[j]
@@ -66,8 +68,8 @@ func sortQueuesByPriorityAndFairness(queues []*Queue, fairMaxResources []*resour
 			return false
 		}
 
-		comp := resources.CompUsageRatioSeparately(l.GetAllocatedResource(), l.GetGuaranteedResource(), fairMaxResources[i],
-			r.GetAllocatedResource(), r.GetGuaranteedResource(), fairMaxResources[j])
+		comp := resources.CompUsageRatioSeparately(l.GetAllocatedResource(), l.GetGuaranteedResource(), fairMax[l],
+			r.GetAllocatedResource(), r.GetGuaranteedResource(), fairMax[r])
 
 		if comp == 0 {
 			return resources.StrictlyGreaterThan(resources.Sub(l.GetPendingResource(), r.GetPendingResource()), resources.Zero)
@@ -77,12 +79,14 @@ func sortQueuesByPriorityAndFairness(queues []*Queue, fairMaxResources []*resour
 }
 
 func sortQueuesByFairnessAndPriority(queues []*Queue, fairMaxResources []*resources.Resource) {
+	// the sort moves the queues but not the parallel slice: look the fair max up by queue, not by index
+	fairMax := fairMaxByQueue(queues, fairMaxResources)
 	sort.SliceStable(queues, func(i, j int) bool {
 		l := queues[i]
 		r := queues[j]
 
-		comp := resources.CompUsageRatioSeparately(l.GetAllocatedResource(), l.GetGuaranteedResource(), fairMaxResources[i],
-			r.GetAllocatedResource(), r.GetGuaranteedResource(), fairMaxResources[j])
+		comp := resources.CompUsageRatioSeparately(l.GetAllocatedResource(), l.GetGuaranteedResource(), fairMax[l],
+			r.GetAllocatedResource(), r.GetGuaranteedResource(), fairMax[r])
 		if comp == 0 {
 			lPriority := l.GetCurrentPriority()
 			rPriority := r.GetCurrentPriority()
@@ -96,6 +100,17 @@ func sortQueuesByFairnessAndPriority(queues []*Queue, fairMaxResources []*resour
 		}
 		return comp < 0
 	})
+}
+
+// fairMaxByQueue links each queue to its fair max resource, as passed in by position.
+func fairMaxByQueue(queues []*Queue, fairMaxResources []*resources.Resource) map[*Queue]*resources.Resource {
+	fairMax := make(map[*Queue]*resources.Resource, len(queues))
+	for i, queue := range queues {
+		if i < len(fairMaxResources) {
+			fairMax[queue] = fairMaxResources[i]
+		}
+	}
+	return fairMax
 }
 
 func sortApplications(apps map[string]*Application, sortType policies.SortPolicy, considerPriority bool, globalResource *resources.Resource) []*Application {
